@@ -53,6 +53,47 @@ fn judge<'a, T: DiffableStr + ?Sized + 'a>(d: &'a TextDiff<'a, 'a, 'a, T>, old: 
     if oi != d.old_slices().len() || ni != d.new_slices().len() {
         return Err("indices do not cover all tokens".into());
     }
+    // the same changes however the iterator is consumed: k hand-made next() calls, then a
+    // fold-based consumer (for_each), and through a peeked Peekable
+    {
+        type Row<'x> = (ChangeTag, Option<usize>, Option<usize>, &'x [u8]);
+        let row = |c: similar::Change<&'a T>| -> Row<'a> { (c.tag(), c.old_index(), c.new_index(), c.value().as_bytes()) };
+        let plain: Vec<Row> = d.iter_all_changes().map(row).collect();
+        for k in [1usize, 2, 5] {
+            let mut it = d.iter_all_changes();
+            let mut got: Vec<Row> = vec![];
+            for _ in 0..k {
+                if let Some(c) = it.next() {
+                    got.push(row(c));
+                }
+            }
+            it.for_each(|c| got.push(row(c)));
+            if got != plain {
+                return Err(format!("iter_all_changes consumed by {} next() calls and then for_each yields {} changes that differ from plain iteration ({} changes)", k, got.len(), plain.len()));
+            }
+        }
+        let mut pk = d.iter_all_changes().peekable();
+        let _ = pk.peek();
+        let got: Vec<Row> = pk.map(row).collect();
+        if got != plain {
+            return Err("iter_all_changes through a peeked Peekable differs from plain iteration".into());
+        }
+        // per-op iteration: same rows, op by op, also when consumed by next() + fold
+        let mut per_op: Vec<Row> = vec![];
+        for op in d.ops() {
+            let mut it = d.iter_changes(op);
+            if let Some(c) = it.next() {
+                per_op.push(row(c));
+            }
+            per_op = it.fold(per_op, |mut v, c| {
+                v.push(row(c));
+                v
+            });
+        }
+        if per_op != plain {
+            return Err(format!("per-op iteration (TextDiff::iter_changes over ops(), tags and indices included) differs from iter_all_changes: {:?} vs {:?}", per_op.iter().take(6).collect::<Vec<_>>(), plain.iter().take(6).collect::<Vec<_>>()));
+        }
+    }
     // the same through per-op iteration
     let mut o2 = vec![];
     let mut n2 = vec![];
@@ -151,8 +192,15 @@ fn enum_small(_tier: Tier, f: &mut dyn FnMut(TextCase) -> bool) {
             // one tokenizer/algorithm per pair, rotating, so the enumeration stays small
             let h = (a.len() * 7 + b.len() * 13 + a.first().copied().unwrap_or(0) as usize + b.last().copied().unwrap_or(0) as usize) % 15;
             let c = TextCase { old: crate::gen::BStr(a.clone()), new: crate::gen::BStr(b.clone()), tok: (h % 5) as u8, alg: (h / 5) as u8, bytes: true, opt: 0 };
-            if !f(c) {
+            if !f(c.clone()) {
                 return;
+            }
+            // valid UTF-8 pairs also as str, with the next tokenizer/algorithm of the rotation
+            if c.old.as_str().is_some() && c.new.as_str().is_some() {
+                let h2 = (h + 7) % 15;
+                if !f(TextCase { tok: (h2 % 5) as u8, alg: (h2 / 5) as u8, bytes: false, ..c }) {
+                    return;
+                }
             }
         }
     }
